@@ -229,7 +229,22 @@ def inline_temps(fn, only=None):
                 cur = obj
                 while cur is not None and cur.k == 'MemberExpr' and not (cur.arrow and strip(cur.child('base')).k != 'CXXThisExpr'):
                     cur = strip(cur.child('base'))
-                if '&&' in (v.t or '') or cur is None or not (cur.k == 'CXXThisExpr' or (cur.k == 'DeclRefExpr' and cur.dk in ('local', 'param') and '*' not in (cur.t or '') and '&' not in (cur.t or ''))):
+                through_ptr = False
+                if cur is not None and cur.k == 'MemberExpr' and cur.arrow:
+                    # `T& r = p->member;` with p a pointer local that is not written in this block: every use of r is p->member
+                    pb = strip(cur.child('base'))
+                    if pb is not None and pb.k == 'DeclRefExpr' and pb.dk in ('local', 'param') and '*' in (pb.t or ''):
+                        written = False
+                        for x in comp.walk():
+                            t_ = None
+                            if x.k in ('BinaryOperator', 'CompoundAssignOperator') and x.op in ('=', '+=', '-='):
+                                t_ = strip(x.child('lhs'))
+                            elif x.k == 'UnaryOperator' and x.op in ('++', '--', 'post++', 'post--', '&'):
+                                t_ = strip(x.child('sub'))
+                            if t_ is not None and t_.k == 'DeclRefExpr' and t_.d == pb.d:
+                                written = True
+                        through_ptr = not written
+                if '&&' in (v.t or '') or cur is None or not (through_ptr or cur.k == 'CXXThisExpr' or (cur.k == 'DeclRefExpr' and cur.dk in ('local', 'param') and '*' not in (cur.t or '') and '&' not in (cur.t or ''))):
                     continue
                 uses = [x for x in fn.body.walk() if x.k == 'DeclRefExpr' and x.d == v.d]
                 if not uses or len(uses) > 24:
@@ -352,6 +367,50 @@ def normalise(fn):
             _normalise(fn)
 
 
+def _cursor_block(fn, comp):
+    """N-CURSOR: `p[0] = e0; ...; p[n-1] = e(n-1); p += n;` (consecutive statements, the e's do not mention p) is
+    `*p++ = e0; ...; *p++ = e(n-1);` - a write cursor advanced once per block or once per store"""
+    ch = pairs(comp)
+    for idx, (st, _r) in enumerate(ch):
+        if st is None or st.k != 'CompoundAssignOperator' or st.op != '+=':
+            continue
+        l = strip(st.child('lhs'))
+        r = strip(st.child('rhs'))
+        if l is None or r is None or l.k != 'DeclRefExpr' or '*' not in (l.t or '') or r.cv is None or r.cv < 1 or r.cv > 8 or idx < r.cv:
+            continue
+        n = r.cv
+        stores = [c for c, _ in ch[idx - n:idx]]
+        ok = True
+        for i, x in enumerate(stores):
+            if x is None or x.k != 'BinaryOperator' or x.op != '=':
+                ok = False
+                break
+            t = strip(x.child('lhs'))
+            if t is None or t.k != 'ArraySubscriptExpr':
+                ok = False
+                break
+            b, ix = strip(t.child('base') or t.c[0]), strip(t.child('idx') or t.c[1])
+            if b is None or b.k != 'DeclRefExpr' or b.d != l.d or ix is None or ix.cv != i:
+                ok = False
+                break
+            if any(y.k == 'DeclRefExpr' and y.d == l.d for y in x.child('rhs').walk()):
+                ok = False
+                break
+        if not ok:
+            continue
+        for x in stores:
+            t = strip(x.child('lhs'))
+            base = strip(t.child('base') or t.c[0])
+            inc = mk_node(fn, 'UnaryOperator', x.l, op='post++', t=base.t, ct=base.ct, cfgat=x.j.get('cfgat', x.id))
+            set_children(inc, [(base, 'sub')])
+            der = mk_node(fn, 'UnaryOperator', x.l, op='*', t=t.t, ct=t.ct, cfgat=x.j.get('cfgat', x.id))
+            set_children(der, [(inc, 'sub')])
+            set_children(x, [(der, 'lhs'), (x.child('rhs'), 'rhs')])
+        set_children(comp, [(c, r_) for j, (c, r_) in enumerate(ch) if j != idx])
+        return True
+    return False
+
+
 def _normalise(fn):
     changed = True
     rounds = 0
@@ -362,6 +421,10 @@ def _normalise(fn):
             if n.parent is None and n is not fn.body:
                 continue        # detached by an earlier rewrite
             k = n.k
+            # N-CURSOR
+            if k == 'CompoundStmt' and _cursor_block(fn, n):
+                changed = True
+                continue
             # N-INC
             if k == 'UnaryOperator' and n.op in ('++', '--') and is_statement_position(n):
                 setj(n, op='post' + n.op)
@@ -758,6 +821,7 @@ def _subst_clone(n, fn, binding, at):
         _clone_id[0] -= 1
         c.j = dict(n.j)
         c.j['id'] = _clone_id[0]
+        c.j['orig'] = n.j.get('orig', n.id)
         c.id, c.k, c.l, c.fn, c.parent, c.role = _clone_id[0], n.k, at.l, fn, None, None
         c.j['l'] = at.l
         c.rl = list(n.rl)
@@ -966,8 +1030,15 @@ def _inline_structured(f, c, h, binding, prefix=()):
         # the statement - the same evaluation when this call is the statement's only call and the variables it is handed
         # by reference do not occur elsewhere in the statement
         stmt = c
-        while stmt.parent is not None and stmt.parent.k != 'CompoundStmt':
-            if stmt.parent.k == 'IfStmt' and stmt.role == 'cond' and stmt.parent.parent is not None and stmt.parent.parent.k == 'CompoundStmt':
+
+        def _hosted(n_):
+            """n_ is a statement of a block, directly or as the first statement after case labels of a switch body"""
+            p_ = n_.parent
+            while p_ is not None and p_.k in ('CaseStmt', 'DefaultStmt') and n_.role == 'sub':
+                n_, p_ = p_, p_.parent
+            return p_ is not None and p_.k == 'CompoundStmt'
+        while stmt.parent is not None and not _hosted(stmt):
+            if stmt.parent.k == 'IfStmt' and stmt.role == 'cond' and _hosted(stmt.parent):
                 if not _branch_free_of_effects(h):
                     return False        # (a helper that closes streams / logs / allocates and reports through its result stays a call)
                 stmt = stmt.parent      # the condition of an `if` that sits in a block: the call runs once, before the branch
@@ -1013,6 +1084,23 @@ def _inline_structured(f, c, h, binding, prefix=()):
         r = _structure(body, f, binding, c, assign)
         if r is None or not r[1]:
             return False
+        if stmt.parent.k in ('CaseStmt', 'DefaultStmt'):
+            # first statement after case labels: the hoisted statements take its place under the label, it follows them in the switch body
+            seq = [decl] + list(prefix) + r[0] + [stmt]
+            inner = stmt.parent
+            top = inner
+            while top.parent is not None and top.parent.k in ('CaseStmt', 'DefaultStmt') and top.role == 'sub':
+                top = top.parent
+            host = top.parent
+            replace_child(inner, stmt, seq[0])
+            out = []
+            for ch, role in pairs(host):
+                out.append((ch, role))
+                if ch is top:
+                    out += [(n_, 'x') for n_ in seq[1:]]
+            set_children(host, out)
+            replace_child(c.parent, c, ref())
+            return True
         out = []
         for ch, role in pairs(stmt.parent):
             if ch is stmt:
@@ -1034,6 +1122,29 @@ def _inline_structured(f, c, h, binding, prefix=()):
     return True
 
 
+def lambda_of(db, call):
+    """the lambda a closure call `name(args)` runs: among the lambdas of the enclosing function (they share one qualified name),
+    the one whose closure object `name` was initialised with"""
+    hs = [h for h in db.by_qn.get(call.callee or '', []) if getattr(h, 'is_lambda', False) and h.body is not None]
+    hs = list({(h.file, h.line): h for h in hs}.values())
+    if not hs:
+        return None
+    a = [x for x, r in pairs(call) if r == 'arg']
+    obj = strip(a[0]) if a else None
+    if obj is None or obj.k != 'DeclRefExpr':
+        return hs[0] if len(hs) == 1 else None
+    decl = next((v for v in call.fn.body.walk() if v.k == 'VarDecl' and v.d == obj.d), None)
+    if decl is None:
+        return hs[0] if len(hs) == 1 else None
+    init = decl.child('init')
+    lam = next((x for x in (init.walk() if init is not None else []) if x.k == 'LambdaExpr'), None)
+    line = lam.l if lam is not None else decl.l
+    same = [h for h in hs if h.file == call.fn.file and h.line == line]
+    if len(same) == 1:
+        return same[0]
+    return hs[0] if len(hs) == 1 else None
+
+
 def inline_new_helpers(db):
     if not ENABLED or os.environ.get('GDSTK_SA_NO_INLINE') or '__functions__' not in _baseline():
         return 0
@@ -1043,19 +1154,21 @@ def inline_new_helpers(db):
             continue
         # N-LAMBDA: `name(args)` on a local lambda is an operator call on the closure object; read it as a call of the body
         for c in [x for x in f.body.walk() if x.k == 'CXXOperatorCallExpr' and (x.callee or '').endswith('::operator()')]:
-            hs = [h for h in db.by_qn.get(c.callee, []) if getattr(h, 'is_lambda', False)]
+            h = lambda_of(db, c)
             a = [(x, r) for x, r in pairs(c) if r == 'arg']
-            if len(hs) == 1 and a and len(a) - 1 == len(hs[0].params) and strip(a[0][0]) is not None and strip(a[0][0]).k == 'DeclRefExpr':
+            if h is not None and a and len(a) - 1 == len(h.params):
                 set_children(c, a[1:])
-                c.k = c.j['k'] = 'CallExpr'
                 c.j = dict(c.j)
-                c.j['k'] = 'CallExpr'
+                c.k = c.j['k'] = 'CallExpr'
+                c.j['lambda_line'] = h.line
         for _round in range(2):
             changed = False
             for c in [x for x in f.body.walk() if x.k == 'CallExpr' and x.callee]:
                 if c.parent is None:
                     continue
                 hs = [h for h in db.by_qn.get(c.callee, []) if _is_new_helper(h, f) and len(h.params) == len(c.args)]
+                if c.j.get('lambda_line') is not None:
+                    hs = [h for h in hs if h.line == c.j['lambda_line']][:1]      # (several lambdas of one function share a name)
                 if len(hs) != 1 or hs[0] is f:
                     continue
                 h = hs[0]
@@ -1065,6 +1178,14 @@ def inline_new_helpers(db):
                 for p_, a in zip(h.params, c.args):
                     isref = '&' in (p_.get('t') or '')
                     a0 = strip(a)
+                    # (an explicit cast that changes what a pointer points to - `(double*)vec2_ptr` - is part of the argument: the
+                    # helper indexes it in units of the new type)
+                    x_ = a
+                    while x_ is not None and x_.k == 'ImplicitCastExpr' and x_.child('sub') is not None:
+                        x_ = x_.child('sub')
+                    if x_ is not None and x_.k in ('CStyleCastExpr', 'CXXReinterpretCastExpr', 'CXXStaticCastExpr') and '*' in (x_.t or '') and x_.child('sub') is not None \
+                            and (strip(x_.child('sub')).t or '').replace('const ', '').strip() != (x_.t or '').replace('const ', '').strip():
+                        a0 = x_
                     if a0 is None:
                         ok = False
                         break
@@ -1094,8 +1215,8 @@ def inline_new_helpers(db):
                     replace_child(c.parent, c, new)
                     changed = True
                     done += 1
-                elif not prefix and not rets and is_statement_position(c) and c.parent.k != 'CompoundStmt' and not (c.parent.k == 'BinaryOperator'):
-                    news = [_subst_clone_folded(x, f, binding, c) for x in body]
+                elif not rets and is_statement_position(c) and c.parent.k != 'CompoundStmt' and not (c.parent.k == 'BinaryOperator'):
+                    news = prefix + [_subst_clone_folded(x, f, binding, c) for x in body]
                     comp = mk_node(f, 'CompoundStmt', c.l)
                     comp.j['cfgat'] = c.id
                     set_children(comp, [(n_, 'x') for n_ in news])
@@ -1105,8 +1226,13 @@ def inline_new_helpers(db):
                 elif rets and _inline_structured(f, c, h, binding, prefix):
                     changed = True
                     done += 1
-                elif not prefix and not rets and c.parent.k == 'CompoundStmt':
-                    news = [_subst_clone_folded(x, f, binding, c) for x in body]
+                elif not rets and c.parent.k == 'CompoundStmt':
+                    news = prefix + [_subst_clone_folded(x, f, binding, c) for x in body]
+                    if prefix:
+                        comp = mk_node(f, 'CompoundStmt', c.l)
+                        comp.j['cfgat'] = c.id
+                        set_children(comp, [(n_, 'x') for n_ in news])
+                        news = [comp]
                     out = []
                     for ch, role in pairs(c.parent):
                         if ch is c:
